@@ -6,6 +6,7 @@ import (
 	"os"
 	"path/filepath"
 	"regexp"
+	"runtime"
 	"strconv"
 	"sync"
 	"sync/atomic"
@@ -73,6 +74,19 @@ func genHistory(t *rapid.T) history {
 		h.Steps = append(h.Steps, s)
 	}
 	return h
+}
+
+// within runs fn with a deadline: the SSH client library can block for ever on a connection that is
+// closed under its feet at the wrong moment (openChannel racing with the mux loop's exit).
+func within(d time.Duration, fn func() error) error {
+	ch := make(chan error, 1)
+	go func() { ch <- fn() }()
+	select {
+	case err := <-ch:
+		return err
+	case <-time.After(d):
+		return fmt.Errorf("no answer within %v", d)
+	}
 }
 
 type conn struct {
@@ -278,14 +292,16 @@ func evalHistory(h history) lib.Outcome {
 					if err != nil {
 						return
 					}
-					if sess, err := cl.NewSession(); err == nil {
-						sess.StdinPipe()
-						if err := sess.Shell(); err != nil {
-							cl.Close()
-							return
+					if err := within(20*time.Second, func() error {
+						sess, err := cl.NewSession()
+						if err != nil {
+							return err
 						}
-					} else {
+						sess.StdinPipe()
+						return sess.Shell()
+					}); err != nil {
 						cl.Close()
+						tcp.Close()
 						return
 					}
 					mu.Lock()
@@ -302,7 +318,9 @@ func evalHistory(h history) lib.Outcome {
 				if len(dump) > 60000 {
 					dump = dump[len(dump)-60000:]
 				}
-				o.Observed = string(dump)
+				buf := make([]byte, 1<<20)
+				buf = buf[:runtime.Stack(buf, true)]
+				o.Observed = map[string]string{"server": string(dump), "client": string(buf)}
 				return fail("step %d: a burst login neither succeeded nor failed within 60 s (server goroutine dump attached)", i)
 			}
 			free := h.Max - len(open)
